@@ -4,7 +4,7 @@
     and the binding-power side conditions of the derivation are not
     machine-checked; the code is tied to the reference parser by correspondence,
     the differences being the recorded known findings).  Statements only. *)
-From JP Require Import Base Value Lexer Parser Gen.Tables Spec.TableSpec Spec.Grammar Proofs.GrammarProof Proofs.ParseFuelProof.
+From JP Require Import Base Value Lexer Parser Gen.Tables Spec.TableSpec Spec.Grammar Spec.Prec Proofs.GrammarProof Proofs.ParseFuelProof.
 
 Theorem C03_table_order : table_order_ok gen_lbp gen_projection_stop = true.
 Proof. vm_compute. reflexivity. Qed.
@@ -31,12 +31,14 @@ Proof. vm_compute. repeat split; eexists; reflexivity. Qed.
     production of the JMESPath grammar, Spec/Grammar.v; well-formed: what follows
     a dot is an identifier, quoted identifier, call, [*], multi-select hash or
     list, and only index, slice, wildcard and filter brackets continue a
-    projection) followed by the end-of-input token, and
+    projection; and disambiguated: every operand has only tighter-binding
+    operators at its top level, Spec/Prec.v) followed by the end-of-input token, and
     the returned tree is the abstract tree of that syntax tree.  So the
     reference parser — the sentence oracle of this property — accepts nothing
     outside the language and never invents a tree. *)
 Theorem C03_reference_parser_sound : forall s t, ref_parse s = Ok t ->
-  exists tokens c, tokenize s = Ok tokens /\ map snd tokens = flat c ++ [TEof] /\ erase c = t /\ wf c.
+  exists tokens c, tokenize s = Ok tokens /\ map snd tokens = flat c ++ [TEof] /\ erase c = t /\ wf c /\
+                   prec (fun tk => spec_lbp (kind_of tk)) 0 c.
 Proof. exact ref_parse_sound. Qed.
 Print Assumptions C03_reference_parser_sound.
 
